@@ -328,7 +328,7 @@ def check(prog, rep, tier):
                             T = cand
                     okc = okc and T is not None and L is not None
                     if okc and T[0] == "hv":
-                        vals = {canon(e.value) for q in ps for e in q.events if e.kind == "bind" and e.name == T[1]}
+                        vals = {canon(e.value) for q in ps for e in q.events if e.kind == "bind" and e.name == T[1] and e.loops}
                         Ls = set()
                         for q in ps:
                             for e in q.events:
